@@ -614,6 +614,7 @@ impl<T> DataReaderEntity<T> {
         }?;
 
         let sample_writer_guid = sample.writer_guid;
+        let sample_kind = sample.kind;
         tracing::debug!(cache_change = ?sample, "Adding change to data reader history cache");
 
         if let Some(instance) = self
@@ -649,11 +650,16 @@ impl<T> DataReaderEntity<T> {
                     x.last_received_time = reception_timestamp;
                 }
             }
-            None => self.instance_ownership.push(InstanceOwnership {
-                instance_handle: change_instance_handle,
-                last_received_time: reception_timestamp,
-                owner_handle: sample_writer_guid,
-            }),
+            // A writer that disposes or unregisters the instance gives up its ownership
+            // (removed above): it must not become the owner again through that same sample
+            None if sample_kind == ChangeKind::Alive => {
+                self.instance_ownership.push(InstanceOwnership {
+                    instance_handle: change_instance_handle,
+                    last_received_time: reception_timestamp,
+                    owner_handle: sample_writer_guid,
+                })
+            }
+            None => (),
         }
         Ok(AddChangeResult::Added)
     }
